@@ -422,6 +422,11 @@ func c15HTTP(c *Ctx) {
 	// the token verified is the access_token query parameter
 	tokOK := false
 	for _, o := range origins(c.downValue(arg(ui, 1), 0)) {
+		if o.Kind == "call" && o.Call != nil && calleeName(o.Call) == "(net/url.Values).Get" {
+			if k, ok := constString(arg(o.Call, 0)); ok && k == "access_token" {
+				tokOK = true // Values.Get: the first value of the parameter
+			}
+		}
 		if o.Kind == "other" {
 			if a, ok := loadAddr(o.Value); ok {
 				if ia, ok := a.(*ssa.IndexAddr); ok {
@@ -737,5 +742,5 @@ func c15SilentRefusal(c *Ctx) {
 			c.OK(rule, key, r.Pos(), "the error text is independent of the decoded claims")
 		}
 	}
-	c.Floor(rule, 3, "refusing returns of UserInfo")
+	c.Floor(rule, 1, "refusing returns of UserInfo")
 }
